@@ -822,3 +822,524 @@ Proof.
   - rewrite He in Hl. simpl in Hl.
     destruct (filter is_default_kv (modes r)); [|discriminate]. rewrite Hc. reflexivity.
 Qed.
+
+(* ================================================================== *)
+(* 8. Selection                                                        *)
+
+Theorem select_dashboard : forall r a c m,
+  dict_get a (modes r) = Some m -> select r (Some a, c) = Some m.
+Proof. intros r a c m H. unfold select. simpl. now rewrite H. Qed.
+
+Theorem select_chooser : forall r d c,
+  (forall a, d = Some a -> dict_get a (modes r) = None) ->
+  select r (d, c) = chooser_selected (chooser_of r) c.
+Proof.
+  intros r [a|] c H; unfold select; simpl; [|reflexivity].
+  now rewrite (H a eq_refl).
+Qed.
+
+Theorem chooser_selected_built : forall fms p r, discover fms p = Built r -> forall c,
+  chooser_selected (chooser_of r) c =
+  let name := match c with Some s => s | None => preselection r end in
+  if (name =? "") || (name =? "None") then None else dict_get name (modes r).
+Proof.
+  intros fms p r H c. unfold chooser_selected, preselection.
+  set (name := match c with Some s => s | None => cdefault (chooser_of r) end).
+  cbv zeta. destruct (name =? ""); [reflexivity|]. cbn [orb].
+  rewrite (built_options _ _ _ H). rewrite (String.eqb_sym "None" name).
+  destruct (name =? "None"); [reflexivity|].
+  destruct (dict_get name (modes r)); reflexivity.
+Qed.
+
+(* ================================================================== *)
+(* 9. Lifecycle                                                        *)
+
+Lemma nondecreasing_tail : forall x l, nondecreasing (x :: l) -> nondecreasing l.
+Proof. intros x l H. simpl in H. tauto. Qed.
+
+Lemma nondecreasing_app_r : forall a b, nondecreasing (a ++ b) -> nondecreasing b.
+Proof. induction a as [|x a IH]; intros b H; [assumption|]. apply IH. eapply nondecreasing_tail, H. Qed.
+
+Lemma nondecreasing_app_l : forall a b, nondecreasing (a ++ b) -> nondecreasing a.
+Proof.
+  induction a as [|x a IH]; intros b H; [exact I|].
+  simpl in *. destruct H as [H1 H2]. split; [|now apply IH with b].
+  destruct a; [exact I|exact H1].
+Qed.
+
+Lemma nondecreasing_cons2 : forall x y l,
+  nondecreasing (x :: y :: l) <-> (x <= y)%Z /\ nondecreasing (y :: l).
+Proof. intros. simpl. tauto. Qed.
+
+Lemma nondecreasing_lower : forall l x, nondecreasing (x :: l) -> Forall (fun y => x <= y)%Z l.
+Proof.
+  induction l as [|y l IH]; intros x H; [constructor|].
+  apply nondecreasing_cons2 in H. destruct H as [H1 H2].
+  constructor; [assumption|]. apply IH in H2.
+  eapply Forall_impl; [|exact H2]. intros z Hz. simpl in Hz. lia.
+Qed.
+
+Lemma nondecreasing_shift : forall l t0,
+  nondecreasing l -> nondecreasing (map (fun now => now - t0)%Z l).
+Proof.
+  induction l as [|x l IH]; intros t0 H; [exact I|].
+  simpl in *. destruct H as [H1 H2]. split; [|now apply IH].
+  destruct l; simpl; [exact I|lia].
+Qed.
+
+Lemma enabled_prefix_is_prefix : forall wakes, exists rest, map fst wakes = enabled_prefix wakes ++ rest.
+Proof.
+  induction wakes as [|[now [|]] wakes [rest IH]]; simpl.
+  - now exists [].
+  - exists rest. now rewrite IH.
+  - now exists (now :: map fst wakes).
+Qed.
+
+Lemma run_loop_active : forall st m t0 wakes, active st = Some m ->
+  run_loop st t0 wakes = map (OnIteration m) (map (fun now => now - t0)%Z (enabled_prefix wakes)).
+Proof.
+  intros st m t0 wakes H. induction wakes as [|[now [|]] wakes IH]; simpl; [reflexivity| |reflexivity].
+  unfold on_iteration. rewrite H. simpl. now rewrite IH.
+Qed.
+
+Lemma run_loop_idle : forall st t0 wakes, active st = None -> run_loop st t0 wakes = [].
+Proof.
+  intros st t0 wakes H. induction wakes as [|[now [|]] wakes IH]; simpl; [reflexivity| |reflexivity].
+  unfold on_iteration. now rewrite H.
+Qed.
+
+(* what one run() period delivers, exactly *)
+Theorem run_period_exact : forall r st s t0 wakes,
+  active st = None ->
+  do_run r st s t0 wakes =
+  (mkL None (timer st) (robot_exit st),
+   match select r s with
+   | None => []
+   | Some m => OnEnable m ::
+               map (OnIteration m)
+                   (if robot_exit st then [] else map (fun now => now - t0)%Z (enabled_prefix wakes)) ++
+               [OnDisable m]
+   end).
+Proof.
+  intros r st s t0 wakes Ha. unfold do_run, on_autonomous_enable, do_disable. simpl.
+  destruct (select r s) as [m|] eqn:Es; simpl.
+  - destruct (robot_exit st); simpl; [reflexivity|].
+    rewrite (run_loop_active _ m) by reflexivity. reflexivity.
+  - destruct (robot_exit st); simpl; [reflexivity|].
+    rewrite run_loop_idle by reflexivity. reflexivity.
+Qed.
+
+Lemma run_ops_periodics : forall r m t0 ex nows rest,
+  run_ops r (mkL (Some m) (Some t0) ex) (map Periodic nows ++ rest) =
+  let '(ev, fin) := run_ops r (mkL (Some m) (Some t0) ex) rest in
+  (map (fun now => OnIteration m (now - t0)%Z) nows ++ ev, fin).
+Proof.
+  intros r m t0 ex nows rest. induction nows as [|now nows IH]; simpl.
+  - destruct (run_ops r _ rest). reflexivity.
+  - simpl in IH. rewrite IH. destruct (run_ops r _ rest). reflexivity.
+Qed.
+
+(* what one start / periodic* / disable period delivers, exactly *)
+Theorem timed_period_exact : forall r st s now nows,
+  active st = None ->
+  run_ops r st (Start s now :: map Periodic nows ++ [Disable]) =
+  (match select r s with
+   | None => []
+   | Some m => OnEnable m :: map (fun n => OnIteration m (n - now)%Z) nows ++ [OnDisable m]
+   end,
+   Some (mkL None (Some now) (robot_exit st))).
+Proof.
+  intros r st s now nows Ha. cbn [run_ops step]. unfold do_start, on_autonomous_enable. cbn [timer robot_exit].
+  destruct (select r s) as [m|] eqn:Es.
+  - rewrite run_ops_periodics. simpl. reflexivity.
+  - induction nows as [|n nows IH]; simpl; [reflexivity|].
+    simpl in IH. destruct (run_ops r _ (map Periodic nows ++ [Disable])) as [ev fin].
+    inversion IH; subst. reflexivity.
+Qed.
+
+(* tail of an open period of mode m whose last elapsed time was >= lo *)
+Inductive tail_ok (r : selector) (m : inst) : Z -> list sel -> list event -> Prop :=
+| tail_open : forall lo, tail_ok r m lo [] []
+| tail_iter : forall lo t ss tr, (lo <= t)%Z -> tail_ok r m t ss tr ->
+    tail_ok r m lo ss (OnIteration m t :: tr)
+| tail_close : forall lo ss tr, conforms r ss tr -> tail_ok r m lo ss (OnDisable m :: tr).
+
+Lemma tail_ok_shape : forall r m lo ss tr, tail_ok r m lo ss tr ->
+  exists ts, nondecreasing (lo :: ts) /\
+    ((ss = [] /\ tr = map (OnIteration m) ts) \/
+     (exists tr', tr = map (OnIteration m) ts ++ OnDisable m :: tr' /\ conforms r ss tr')).
+Proof.
+  induction 1 as [lo|lo t ss tr Hle Ht [ts [Hn Hs]]|lo ss tr Hc].
+  - exists []. split; [simpl; tauto|]. left. auto.
+  - exists (t :: ts). split; [apply nondecreasing_cons2; auto|].
+    destruct Hs as [[Hs1 Hs2]|[tr' [Hs1 Hs2]]].
+    + left. subst. auto.
+    + right. exists tr'. subst. auto.
+  - exists []. split; [simpl; tauto|]. right. exists tr. auto.
+Qed.
+
+Lemma tail_to_conforms : forall r m lo s ss tr,
+  tail_ok r m lo ss tr -> (0 <= lo)%Z -> select r s = Some m ->
+  conforms r (s :: ss) (OnEnable m :: tr).
+Proof.
+  intros r m lo s ss tr Ht Hlo Hs. apply tail_ok_shape in Ht.
+  destruct Ht as [ts [Hn Hshape]].
+  assert (Hpos : Forall (fun t => 0 <= t)%Z ts).
+  { apply nondecreasing_lower in Hn. eapply Forall_impl; [|exact Hn]. intros z Hz. simpl in Hz. lia. }
+  apply nondecreasing_tail in Hn.
+  destruct Hshape as [[H1 H2]|[tr' [H1 H2]]]; subst.
+  - now apply conf_open.
+  - now apply conf_closed.
+Qed.
+
+Definition inv (ph : phase) (st : lstate) (lastnow : Z) : Prop :=
+  match ph with
+  | Fresh => active st = None
+  | Idle => active st = None /\ timer st <> None
+  | Open => exists t0, timer st = Some t0 /\ (t0 <= lastnow)%Z
+  end.
+
+Definition clock_ok (ph : phase) (lastnow : Z) (ops : list op) : Prop :=
+  match ph with
+  | Open => nondecreasing (lastnow :: readings ops)
+  | _ => nondecreasing (readings ops)
+  end.
+
+Definition goal (r : selector) (st : lstate) (lastnow : Z) (ss : list sel) (ev : list event) : Prop :=
+  match active st with
+  | None => conforms r ss ev
+  | Some m => exists t0, timer st = Some t0 /\ tail_ok r m (lastnow - t0) ss ev
+  end.
+
+Lemma lifecycle_gen : forall r ops ph st lastnow,
+  wf ph ops = true -> inv ph st lastnow -> clock_ok ph lastnow ops ->
+  exists ev fin, run_ops r st ops = (ev, Some fin) /\ goal r st lastnow (selections ops) ev.
+Proof.
+  intros r. induction ops as [|o ops IH]; intros ph st lastnow Hwf Hinv Hclk.
+  - exists [], st. split; [reflexivity|]. unfold goal. simpl.
+    destruct (active st) as [m|] eqn:Ea; [|constructor].
+    destruct ph; simpl in Hinv; try (destruct Hinv; congruence); try congruence.
+    destruct Hinv as [t0 [Ht _]]. exists t0. split; [assumption|constructor].
+  - destruct o as [s now|now| |s t0 wakes|].
+    + (* Start *)
+      assert (Ha : active st = None /\ nondecreasing (now :: readings ops)).
+      { destruct ph; simpl in *; try discriminate; tauto. }
+      destruct Ha as [Ha Hn].
+      assert (Hwf' : wf Open ops = true) by (destruct ph; simpl in Hwf; congruence).
+      specialize (IH Open (mkL (select r s) (Some now) (robot_exit st)) now Hwf').
+      destruct IH as [ev [fin [Hr Hg]]].
+      { simpl. exists now. split; [reflexivity|lia]. }
+      { exact Hn. }
+      cbn [run_ops step]. unfold do_start, on_autonomous_enable. cbn [timer robot_exit].
+      rewrite Hr. unfold goal in *. rewrite Ha. cbn [active timer selections] in *.
+      destruct (select r s) as [m|] eqn:Es.
+      * exists (OnEnable m :: ev), fin. split; [reflexivity|].
+        destruct Hg as [t0 [Ht Hg]]. inversion Ht; subst t0. rewrite Z.sub_diag in Hg.
+        eapply tail_to_conforms; eauto. lia.
+      * exists ev, fin. split; [reflexivity|]. now apply conf_none.
+    + (* Periodic *)
+      destruct ph; [discriminate| |].
+      * (* Idle *)
+        destruct Hinv as [Ha Ht]. destruct (timer st) as [t0|] eqn:Et; [|congruence].
+        specialize (IH Idle st lastnow Hwf). destruct IH as [ev [fin [Hr Hg]]].
+        { split; [assumption|congruence]. }
+        { simpl in *. tauto. }
+        cbn [run_ops step]. unfold do_periodic, on_iteration. rewrite Et, Ha, Hr.
+        exists ev, fin. split; [reflexivity|]. unfold goal in *. rewrite Ha in *. exact Hg.
+      * (* Open *)
+        destruct Hinv as [t0 [Ht Hle]]. simpl in Hclk.
+        assert (Hln : (lastnow <= now)%Z) by tauto.
+        specialize (IH Open st now Hwf). destruct IH as [ev [fin [Hr Hg]]].
+        { exists t0. split; [assumption|lia]. }
+        { simpl. tauto. }
+        cbn [run_ops step]. unfold do_periodic, on_iteration. rewrite Ht, Hr.
+        unfold goal in *. cbn [selections]. destruct (active st) as [m|] eqn:Ea.
+        -- exists (OnIteration m (now - t0)%Z :: ev), fin. split; [reflexivity|].
+           destruct Hg as [t0' [Ht' Hg]]. rewrite Ht in Ht'. inversion Ht'; subst t0'.
+           exists t0. split; [assumption|]. apply tail_iter; [lia|exact Hg].
+        -- exists ev, fin. split; [reflexivity|exact Hg].
+    + (* Disable *)
+      set (ph' := match ph with Open => Idle | x => x end).
+      assert (Hwf' : wf ph' ops = true) by exact Hwf.
+      specialize (IH ph' (mkL None (timer st) (robot_exit st)) lastnow Hwf').
+      destruct IH as [ev [fin [Hr Hg]]].
+      { destruct ph; simpl in *; auto.
+        - destruct Hinv. split; auto.
+        - destruct Hinv as [t0 [Ht _]]. split; [reflexivity|congruence]. }
+      { destruct ph; simpl in *; tauto. }
+      cbn [run_ops step]. unfold do_disable. rewrite Hr.
+      unfold goal in *. cbn [active selections] in *.
+      destruct (active st) as [m|] eqn:Ea.
+      * exists (OnDisable m :: ev), fin. split; [reflexivity|].
+        destruct ph; simpl in Hinv; try (destruct Hinv; congruence); try congruence.
+        destruct Hinv as [t0 [Ht _]]. exists t0. split; [assumption|]. now apply tail_close.
+      * exists ev, fin. split; [reflexivity|exact Hg].
+    + (* RunPeriod *)
+      assert (Ha : active st = None).
+      { destruct ph; simpl in *; try discriminate; tauto. }
+      assert (Hwf' : wf ph ops = true) by (destruct ph; simpl in Hwf; congruence).
+      assert (Hn : nondecreasing (t0 :: map fst wakes ++ readings ops)).
+      { destruct ph; simpl in *; try discriminate; tauto. }
+      specialize (IH ph (mkL None (timer st) (robot_exit st)) lastnow Hwf').
+      destruct IH as [ev [fin [Hr Hg]]].
+      { destruct ph; simpl in *; try discriminate; tauto. }
+      { assert (Hn' : nondecreasing (readings ops)).
+        { apply nondecreasing_tail in Hn. now apply nondecreasing_app_r in Hn. }
+        destruct ph; simpl in *; try discriminate; tauto. }
+      cbn [run_ops step]. rewrite run_period_exact by assumption. rewrite Hr.
+      unfold goal in *. rewrite Ha. cbn [active selections] in *.
+      destruct (select r s) as [m|] eqn:Es.
+      * eexists _, fin. split; [reflexivity|].
+        cbn [app]. rewrite <- app_assoc. cbn [app].
+        apply conf_closed; auto.
+        -- destruct (robot_exit st); [exact I|].
+           apply nondecreasing_shift.
+           destruct (enabled_prefix_is_prefix wakes) as [rest Hp].
+           apply nondecreasing_tail in Hn. rewrite Hp, <- app_assoc in Hn.
+           now apply nondecreasing_app_l in Hn.
+        -- destruct (robot_exit st); [constructor|].
+           destruct (enabled_prefix_is_prefix wakes) as [rest Hp].
+           rewrite Hp, <- app_assoc in Hn. change (t0 :: enabled_prefix wakes ++ rest ++ readings ops)
+             with ((t0 :: enabled_prefix wakes) ++ rest ++ readings ops) in Hn.
+           apply nondecreasing_app_l in Hn. apply nondecreasing_lower in Hn.
+           apply Forall_forall. intros t Ht. apply in_map_iff in Ht. destruct Ht as [n [Hn1 Hn2]].
+           rewrite Forall_forall in Hn. specialize (Hn n Hn2). simpl in Hn. lia.
+      * exists ev, fin. split; [reflexivity|]. now apply conf_none.
+    + (* EndCompetition *)
+      specialize (IH ph (mkL (active st) (timer st) true) lastnow Hwf).
+      destruct IH as [ev [fin [Hr Hg]]].
+      { destruct ph; simpl in *; auto. }
+      { destruct ph; simpl in *; auto. }
+      cbn [run_ops step]. rewrite Hr. exists ev, fin. split; [reflexivity|exact Hg].
+Qed.
+
+Theorem lifecycle : forall r ops,
+  well_formed ops = true -> clock_monotone ops ->
+  conforms r (selections ops) (trace r ops) /\ snd (run_ops r init_lstate ops) <> None.
+Proof.
+  intros r ops Hwf Hclk.
+  destruct (lifecycle_gen r ops Fresh init_lstate 0%Z Hwf) as [ev [fin [Hr Hg]]].
+  - reflexivity.
+  - exact Hclk.
+  - unfold trace. rewrite Hr. simpl. split; [exact Hg|discriminate].
+Qed.
+
+(* consequences of the language *)
+Lemma conforms_modes : forall r ss tr, conforms r ss tr ->
+  forall e, In e tr -> exists s, In s ss /\ select r s = Some (mode_of e).
+Proof.
+  induction 1 as [|s ss tr Hs Hc IH|s ss m ts tr Hs Hn Hp Hc IH|s m ts Hs Hn Hp]; intros e He.
+  - contradiction.
+  - destruct (IH e He) as [s' [H1 H2]]. exists s'. split; [now right|assumption].
+  - destruct He as [He|He]; [subst; exists s; split; [now left|assumption]|].
+    apply in_app_iff in He. destruct He as [He|[He|He]].
+    + apply in_map_iff in He. destruct He as [t [Ht _]]. subst. exists s. split; [now left|assumption].
+    + subst. exists s. split; [now left|assumption].
+    + destruct (IH e He) as [s' [H1 H2]]. exists s'. split; [now right|assumption].
+  - destruct He as [He|He]; [subst; exists s; split; [now left|assumption]|].
+    apply in_map_iff in He. destruct He as [t [Ht _]]. subst. exists s. split; [now left|assumption].
+Qed.
+
+Definition is_enable (e : event) : Prop := match e with OnEnable _ => True | _ => False end.
+
+(* whatever comes directly after an on_disable is the next period's on_enable *)
+Fixpoint quiet_after_disable (tr : list event) : Prop :=
+  match tr with
+  | [] => True
+  | e :: rest =>
+    match e, rest with
+    | OnDisable _, e' :: _ => is_enable e'
+    | _, _ => True
+    end /\ quiet_after_disable rest
+  end.
+
+Lemma conforms_head : forall r ss e tr, conforms r ss (e :: tr) -> is_enable e.
+Proof.
+  intros r ss e tr H. remember (e :: tr) as l eqn:El. revert e tr El.
+  induction H; intros e0 tr0 El; try discriminate; eauto; inversion El; exact I.
+Qed.
+
+Lemma quiet_iters : forall m ts rest,
+  quiet_after_disable rest -> (forall e tr, rest = e :: tr -> True) ->
+  quiet_after_disable (map (OnIteration m) ts ++ rest).
+Proof.
+  induction ts as [|t ts IH]; intros rest Hq Hx; simpl; [assumption|].
+  split; [destruct (map (OnIteration m) ts ++ rest); exact I|]. now apply IH.
+Qed.
+
+Lemma conforms_quiet : forall r ss tr, conforms r ss tr -> quiet_after_disable tr.
+Proof.
+  induction 1 as [|s ss tr Hs Hc IH|s ss m ts tr Hs Hn Hp Hc IH|s m ts Hs Hn Hp].
+  - exact I.
+  - exact IH.
+  - simpl. split; [destruct (map (OnIteration m) ts ++ OnDisable m :: tr); exact I|].
+    apply quiet_iters; [|auto]. simpl. split; [|exact IH].
+    destruct tr as [|e tr]; [exact I|]. eapply conforms_head; eauto.
+  - simpl. split; [destruct (map (OnIteration m) ts); exact I|].
+    rewrite <- (app_nil_r (map (OnIteration m) ts)). apply quiet_iters; [exact I|auto].
+Qed.
+
+(* ================================================================== *)
+(* 10. Statements in the vocabulary of the property                    *)
+
+Lemma NoDup_map_In_inj {A B} (f : A -> B) : forall l x y,
+  NoDup (map f l) -> In x l -> In y l -> f x = f y -> x = y.
+Proof.
+  induction l as [|a l IH]; intros x y Hn Hx Hy Hf; [contradiction|].
+  simpl in Hn. inversion Hn as [|? ? Hn1 Hn2]; subst.
+  destruct Hx as [Hx|Hx], Hy as [Hy|Hy]; subst; auto.
+  - exfalso. apply Hn1. rewrite Hf. now apply in_map.
+  - exfalso. apply Hn1. rewrite <- Hf. now apply in_map.
+Qed.
+
+Lemma in_needed : forall p i,
+  In i (needed p) <->
+  exists m c, In m (loaded_modules p) /\ In c (classes m) /\ is_needed c = true /\ i = mkInst (file m) c.
+Proof.
+  intros p i. unfold needed. rewrite in_flat_map. split.
+  - intros [m [Hm Hi]]. unfold needed_of in Hi. apply in_map_iff in Hi. destruct Hi as [c [Hc Hi]].
+    apply filter_In in Hi. exists m, c. intuition.
+  - intros [m [c [Hm [Hc [Hn Hi]]]]]. exists m. split; [assumption|]. unfold needed_of.
+    apply in_map_iff. exists c. split; [auto|]. apply filter_In. auto.
+Qed.
+
+(* "instantiates, once each, exactly the classes ... that define MODE_NAME
+   and are not marked DISABLED" *)
+Theorem instantiated_exactly : forall fms p r,
+  discover fms p = Built r -> layout_ok p ->
+  NoDup (ctor_calls r) /\
+  (forall m c, In m (loaded_modules p) -> In c (classes m) ->
+     (In (file m, cname c) (ctor_calls r) <-> is_needed c = true)) /\
+  (forall x, In x (ctor_calls r) ->
+     exists m c, In m (loaded_modules p) /\ In c (classes m) /\ x = (file m, cname c)).
+Proof.
+  intros fms p r H Hl. rewrite (built_ctor_calls _ _ _ H).
+  split; [now apply needed_calls_NoDup|]. split.
+  - intros m c Hm Hc. split.
+    + intros Hin. apply in_map_iff in Hin. destruct Hin as [i [Hi Hin]].
+      apply in_needed in Hin. destruct Hin as [m' [c' [Hm' [Hc' [Hn Hi']]]]]. subst i.
+      unfold call_of in Hi. simpl in Hi. inversion Hi as [[Hf Hcn]].
+      destruct Hl as [Hl1 Hl2].
+      assert (Hs : forall x, In x (loaded_modules p) -> In x (scanned_modules p)).
+      { intros x Hx. unfold loaded_modules in Hx. apply filter_In in Hx. tauto. }
+      assert (m' = m) by (eapply NoDup_map_In_inj; [exact Hl1| | |]; auto).
+      subst m'. assert (c' = c) by (eapply NoDup_map_In_inj; [apply (Hl2 m); auto| | |]; auto).
+      now subst.
+    + intros Hn. apply in_map_iff. exists (mkInst (file m) c). split; [reflexivity|].
+      apply in_needed. exists m, c. auto.
+  - intros x Hx. apply in_map_iff in Hx. destruct Hx as [i [Hi Hin]].
+    apply in_needed in Hin. destruct Hin as [m [c [Hm [Hc [_ Hi']]]]]. subst. exists m, c. auto.
+Qed.
+
+Lemma filter_default_entries : forall l,
+  filter is_default_kv (map entry_of l) = map entry_of (filter is_default l).
+Proof.
+  induction l as [|i l IH]; simpl; [reflexivity|].
+  unfold is_default_kv at 1. simpl. destruct (is_default i); simpl; congruence.
+Qed.
+
+(* without FMS: keyed by MODE_NAME, and the flagged mode is preselected *)
+Theorem no_fms_offer : forall p r,
+  discover false p = Built r ->
+  modes r = map entry_of (needed p) /\
+  match filter is_default (needed p) with
+  | [] => preselection r = "None"
+  | [i] => preselection r = name_of i
+  | _ => False
+  end.
+Proof.
+  intros p r H. pose proof (no_fms_built _ _ H) as [_ [_ [_ [_ [Hs Hm]]]]].
+  split; [assumption|].
+  pose proof (built_preselection _ _ _ H) as Hp. rewrite Hm, filter_default_entries in Hp.
+  unfold several_defaults in Hs.
+  destruct (filter is_default (needed p)) as [|i [|j l]]; simpl in *; auto. lia.
+Qed.
+
+Theorem fms_tolerates : forall p,
+  p <> PkgInitFails ->
+  exists r, discover true p = Built r /\
+    (no_key_clash p ->
+     forall i, In i (needed p) -> healthy i = true ->
+       exists k, (k = name_of i \/ k = renamed i) /\
+                 dict_get k (modes r) = Some i /\
+                 In k (option_names r) /\
+                 (choosable k -> chooser_selected (chooser_of r) (Some k) = Some i)).
+Proof.
+  intros p Hp. destruct (fms_never_raises p Hp) as [r Hr]. exists r. split; [assumption|].
+  intros Hc i Hi Hh. destruct (fms_modes _ _ Hr Hc) as [H1 _].
+  destruct (H1 i Hi Hh) as [k [Hk Hg]]. exists k. repeat split; auto.
+  - apply (built_option_names _ _ _ Hr). right. apply dict_get_not_None_In. congruence.
+  - intros [Hn He]. rewrite (chooser_selected_built _ _ _ Hr). cbv zeta.
+    apply String.eqb_neq in Hn. apply String.eqb_neq in He. rewrite Hn, He. exact Hg.
+Qed.
+
+(* nothing but the selected modes ever gets a callback *)
+Theorem only_selected_modes : forall r ops,
+  well_formed ops = true -> clock_monotone ops ->
+  forall e, In e (trace r ops) ->
+    exists s, In s (selections ops) /\ select r s = Some (mode_of e).
+Proof.
+  intros r ops Hw Hc e He. destruct (lifecycle r ops Hw Hc) as [H _].
+  eapply conforms_modes; eauto.
+Qed.
+
+Theorem nothing_after_disable : forall r ops,
+  well_formed ops = true -> clock_monotone ops -> quiet_after_disable (trace r ops).
+Proof.
+  intros r ops Hw Hc. destruct (lifecycle r ops Hw Hc) as [H _]. eapply conforms_quiet; eauto.
+Qed.
+
+(* ================================================================== *)
+(* 11. Where the code differs from the wording of the property         *)
+
+(* (a) a failing import of the package itself is raised even with the FMS *)
+Theorem fms_package_failure_raises : discover true PkgInitFails = Raised ErrPackage [].
+Proof. reflexivity. Qed.
+
+(* (b) a MODE_NAME that equals an artificial duplicate key: with the FMS the
+   healthy mode A0 is overwritten by the renamed duplicate B and is not offered *)
+Definition clash_pkg : package :=
+  PkgPresent [mkMod "m" "/p/m.py" false
+    [mkCls "A" (Some "x") false false false;
+     mkCls "A0" (Some "B_/p/m.py") false false false;
+     mkCls "B" (Some "x") false false false]].
+
+Theorem fms_key_clash_loses_a_mode :
+  exists r, discover true clash_pkg = Built r /\
+    In (mkInst "/p/m.py" (mkCls "A0" (Some "B_/p/m.py") false false false)) (needed clash_pkg) /\
+    forall k, dict_get k (modes r) <> Some (mkInst "/p/m.py" (mkCls "A0" (Some "B_/p/m.py") false false false)).
+Proof.
+  eexists. split; [vm_compute; reflexivity|]. split; [vm_compute; tauto|].
+  intros k. cbn [modes]. unfold dict_get.
+  destruct ("x" =? k); [discriminate|]. destruct ("B_/p/m.py" =? k); discriminate.
+Qed.
+
+(* (c) a mode whose MODE_NAME is "None" is hidden by the chooser's own entry,
+   even when it is the DEFAULT *)
+Definition none_pkg : package :=
+  PkgPresent [mkMod "m" "/p/m.py" false [mkCls "A" (Some "None") false true false]].
+
+Theorem mode_called_None_not_choosable :
+  exists r, discover false none_pkg = Built r /\
+    preselection r = "None" /\ chooser_selected (chooser_of r) None = None /\
+    chooser_selected (chooser_of r) (Some "None") = None.
+Proof. eexists. split; [vm_compute; reflexivity|]. vm_compute. auto. Qed.
+
+Definition ev_kind (e : event) : string * string :=
+  match e with
+  | OnEnable m => ("enable", cname (icls m))
+  | OnIteration m _ => ("iteration", cname (icls m))
+  | OnDisable m => ("disable", cname (icls m))
+  end.
+
+(* (d) start() twice without disable(): the first mode never gets on_disable *)
+Definition two_pkg : package :=
+  PkgPresent [mkMod "m" "/p/m.py" false
+    [mkCls "A" (Some "a") false true false; mkCls "B" (Some "b") false false false]].
+
+Theorem ill_formed_start_start :
+  exists r, discover false two_pkg = Built r /\
+    well_formed [Start (None, None) 0; Start (Some "b", None) 5; Disable] = false /\
+    map ev_kind (trace r [Start (None, None) 0; Start (Some "b", None) 5; Disable]) =
+      [("enable", "A"); ("enable", "B"); ("disable", "B")].
+Proof. eexists. split; [vm_compute; reflexivity|]. split; reflexivity. Qed.
